@@ -148,14 +148,48 @@ def run_check(prop, plan, tier, seed, replay, t0):
     recognisers = plan.get("recognisers", {})
     explained = {}
     unexplained = []
-    for f in res.oracle_fails:
-        hit = None
-        for k in known:
-            rec = recognisers.get(k["recogniser"])
-            if rec and rec(f):
-                hit = k; break
-        if hit: explained.setdefault(hit["id"], []).append(f)
-        else: unexplained.append(f)
+    def classify_fails(fails):
+        for f in fails:
+            hit = None
+            for k in known:
+                rec = recognisers.get(k["recogniser"])
+                if rec and rec(f):
+                    hit = k; break
+            if hit: explained.setdefault(hit["id"], []).append(f)
+            else: unexplained.append(f)
+    classify_fails(res.oracle_fails)
+    # 5b. a proof obligation or the correspondence broke but no oracle has failed yet: search harder for a concrete failing
+    # input of the property before giving the verdict (fresh seeds, more ops, all cores; time-boxed)
+    if problems and not unexplained and not replay and profiles and have_model:
+        budget = 150 if tier == "quick" else 900
+        t_search = time.time()
+        searched = 0
+        for rnd in range(1, 5):
+            if time.time() - t_search > budget or unexplained: break
+            sseed = seed + 7919 * rnd
+            jobs = []
+            for sname, sd, n, tag, crate in _chunks(plan, tier, sseed):
+                for c in range(4):
+                    jobs.append((sname, sd + 31 * c, n, f"search{rnd}.{tag}.{c}", crate))
+            more = []
+            with cf.ThreadPoolExecutor(max_workers=NCPU) as ex:
+                futs = [ex.submit(run_suite_chunk, prop, sname, sd, n, tag, profiles[:1], None, crate) for (sname, sd, n, tag, crate) in jobs]
+                for f in futs:
+                    r = f.result()
+                    if "error" in r: continue
+                    searched += r["n_ops"]
+                    for d in r["oracle_fails"]: more.append(dict(d, ops_path=r["ops_path"], chunk="search"))
+            hook = plan.get("extra")
+            if hook and not more and time.time() - t_search < budget:
+                try:
+                    hk = hook(prop, tier, sseed, profiles)
+                    more += hk.get("fails", [])
+                    searched += hk.get("evaluations", 0)
+                except Exception as e:   # the search is best effort
+                    notes.append(f"search round {rnd}: oracle hook failed: {e}")
+            res.oracle_fails += more
+            classify_fails(more)
+        notes.append(f"failing-input search after a broken obligation: {searched} further ops/evaluations explored with fresh seeds in {time.time() - t_search:.0f}s; " + ("found a failing input" if unexplained else "none found"))
     # findings that are stated as refuted theorems + a replayed witness always print
     for k in known:
         if k.get("always_report") or k["id"] in explained:
